@@ -119,3 +119,72 @@ Fixpoint vll_eqb (a b : list (list value)) : bool :=
   | x :: a', y :: b' => vlist_eqb x y && vll_eqb a' b'
   | _, _ => false
   end.
+
+(* ---- the documented meaning of the keywords and operators (docs/atom_selection.rst), as a table check:
+   every documented spelling must be present with its documented meaning; additional aliases are allowed *)
+Require Import MD.Select.Reference.
+
+Definition field_eqb (a b : field) : bool :=
+  match a, b with
+  | FTrue, FTrue | FFalse, FFalse | FIsBackbone, FIsBackbone | FIsSidechain, FIsSidechain
+  | FResIsProtein, FResIsProtein | FResCode, FResCode | FResIsWater, FResIsWater | FName, FName | FIndex, FIndex
+  | FNBonds, FNBonds | FResSeq, FResSeq | FResName, FResName | FResIndex, FResIndex | FSegmentId, FSegmentId
+  | FChainIndex, FChainIndex | FElemSymbol, FElemSymbol | FElemMass, FElemMass => true
+  | _, _ => false
+  end.
+Definition cmpop_eqb (a b : cmpop) : bool :=
+  match a, b with
+  | CLt, CLt | CEq, CEq | CLe, CLe | CNe, CNe | CGe, CGe | CGt, CGt => true
+  | _, _ => false
+  end.
+Definition binsem_eqb (a b : binsem) : bool :=
+  match a, b with
+  | SBool BAnd, SBool BAnd | SBool BOr, SBool BOr => true
+  | SCmp x, SCmp y => cmpop_eqb x y
+  | _, _ => false
+  end.
+
+Definition documented_meaning (cfg : config) : bool :=
+  forallb (fun p => match assoc (fst p) (sel_kws cfg) with Some f => field_eqb f (snd p) | None => false end) ref_sel_kws
+  && forallb (fun p => match assoc (fst p) (bin_sem cfg) with Some b => binsem_eqb b (snd p) | None => false end) ref_bin_sem
+  && forallb (fun o => mem_str o (flat_map (fun l => match lv_kind l with KUnary => lv_ops l | _ => [] end) (levels cfg)))
+       ["!"; "not "]
+  && forallb (fun o => mem_str o (flat_map (fun l => match lv_kind l with KRegex => lv_ops l | _ => [] end) (levels cfg)))
+       ["=~"]
+  && forallb (fun p => mem_str (fst p) (flat_map (fun l => match lv_kind l with KBinary => lv_ops l | _ => [] end) (levels cfg)))
+       ref_bin_sem.
+
+(* the tables of a configuration are literally the as-found reference tables *)
+Fixpoint list_eqb {A} (eqb : A -> A -> bool) (a b : list A) : bool :=
+  match a, b with
+  | [], [] => true
+  | x :: a', y :: b' => eqb x y && list_eqb eqb a' b'
+  | _, _ => false
+  end.
+Definition kind_eqb (a b : kind) : bool :=
+  match a, b with KUnary, KUnary | KBinary, KBinary | KRegex, KRegex => true | _, _ => false end.
+Definition level_eqb (a b : level) : bool :=
+  kind_eqb (lv_kind a) (lv_kind b) && list_eqb String.eqb (lv_ops a) (lv_ops b).
+Definition tables_as_found (cfg : config) : bool :=
+  list_eqb (fun p q => String.eqb (fst p) (fst q) && field_eqb (snd p) (snd q)) (sel_kws cfg) ref_sel_kws
+  && list_eqb level_eqb (levels cfg) ref_levels
+  && list_eqb (fun p q => String.eqb (fst p) (fst q) && binsem_eqb (snd p) (snd q)) (bin_sem cfg) ref_bin_sem.
+
+(* the configuration "as documented": reference keyword and operator tables, residue tables of cfg *)
+Definition documented (cfg : config) : config :=
+  {| sel_kws := ref_sel_kws; levels := ref_levels; bin_sem := ref_bin_sem; py_kwlist := py_kwlist cfg;
+     amino_codes := amino_codes cfg; water_names := water_names cfg |}.
+
+(* code 16: differs from the documented tables under both operator orders and both single-literal tests *)
+Definition doc_code (cfg : config) (topos : list (list atom)) (c : nat * string * outcome) : nat :=
+  let '(ti, s, impl) := c in
+  let atoms := nth_topo topos ti in
+  let d := documented cfg in
+  let dc := conventional d in
+  if outcome_eqb (select_str d false atoms s) impl || outcome_eqb (select_str d true atoms s) impl
+     || outcome_eqb (select_str dc false atoms s) impl || outcome_eqb (select_str dc true atoms s) impl
+  then 0 else 16.
+
+Definition doc_codes (cfg : config) (topos : list (list atom)) (cases : list (nat * (nat * string * outcome)))
+  : list (nat * nat) :=
+  filter (fun p => negb (Nat.eqb (snd p) 0)) (map (fun c => (fst c, doc_code cfg topos (snd c))) cases).
